@@ -114,7 +114,14 @@ func (s *Store) persist(higher Snapshot, persistOptions StorePersistOptions) (
 
 	// If higher segment has no data, we're still clean, so just snapshot.
 	if ss.isEmpty() {
-		return s.Snapshot()
+		// No mutations to persist, but child collections may have been
+		// created (still empty) or deleted, which takes a new footer.
+		s.m.Lock()
+		differ := childCollectionsDiffer(s.footer, ss)
+		s.m.Unlock()
+		if !differ {
+			return s.Snapshot()
+		}
 	}
 
 	fref, file, err := s.startOrReuseFile()
@@ -172,6 +179,28 @@ func (s *Store) persist(higher Snapshot, persistOptions StorePersistOptions) (
 
 // buildNewFooter will construct a new Footer for the store by combining
 // the given storeFooter's segmentLocs with that of the incoming snapshot.
+// childCollectionsDiffer returns true when the child collections of a
+// segmentStack (which has a stack for every live child collection)
+// are not the ones of the footer: by name, incarnation or, recursively,
+// their own child collections.
+func childCollectionsDiffer(footer *Footer, ss *segmentStack) bool {
+	var childFooters map[string]*Footer
+	if footer != nil {
+		childFooters = footer.ChildFooters
+	}
+	if len(childFooters) != len(ss.childSegStacks) {
+		return true
+	}
+	for cName, childStack := range ss.childSegStacks {
+		childFooter, exists := childFooters[cName]
+		if !exists || childFooter.incarNum != childStack.incarNum ||
+			childCollectionsDiffer(childFooter, childStack) {
+			return true
+		}
+	}
+	return false
+}
+
 func (s *Store) buildNewFooter(storeFooter *Footer, ss *segmentStack) *Footer {
 	footer := &Footer{refs: 1, incarNum: ss.incarNum}
 
